@@ -1,10 +1,11 @@
 (* C03: a definite type mismatch is rejected wherever it is placed.
    Part 1 (this file, `placement_gen`): propagation.  If the checker rejects the filler in the TypeCtx it
-   has at the hole (in every state, with every fuel), then it rejects the whole plugged term: every Ok
-   path of the traversal visits every child, and `bind` propagates non-Ok.
-   Part 2 (`Mismatch.v`): local rejection of each mismatch kind in an arbitrary state. *)
+   has at the hole (in every well-formed state, with every fuel), then it rejects the whole plugged term:
+   every Ok path of the traversal visits every child, `bind` propagates non-Ok, and everything the checker
+   does before it reaches the hole keeps the type graph well formed (TcInv).
+   Part 2 (`Mismatch.v`): local rejection of each mismatch kind in an arbitrary well-formed state. *)
 From Coq Require Import String List NArith ZArith PArith Bool Lia FMapPositive.
-From Sylt Require Import Syntax.Resolved Types.TyGraph Types.Tc Types.Ctx.
+From Sylt Require Import Syntax.Resolved Types.TyGraph Types.Tc Types.Ctx Types.TcInv.
 Import ListNotations.
 Local Open Scope tc_scope.
 
@@ -61,9 +62,43 @@ Proof.
   - apply bind_notok_r. intros a s'. apply IH.
 Qed.
 
+(* the same with the invariant threaded through *)
+Lemma bind_notok_rw {A B} (m : M A) (k : A -> M B) s :
+  pres m -> wf s -> (forall a s', wf s' -> notok (k a s')) -> notok (bind m k s).
+Proof.
+  unfold notok, bind. intros P W H a. destruct (m s) as [[x s']| | |] eqn:E; try discriminate.
+  apply H. eapply P; eassumption.
+Qed.
+
+Lemma iterM_notok_w {A} (f : A -> M unit) pre x post :
+  (forall y, pres (f y)) -> (forall s, wf s -> notok (f x s)) -> forall s, wf s -> notok (iterM f (pre ++ x :: post) s).
+Proof.
+  intros P H. induction pre as [|p pre IH]; intros s W; cbn [app iterM].
+  - apply bind_notok_l, H, W.
+  - apply bind_notok_rw; [apply P|assumption|]. intros a s' W'. now apply IH.
+Qed.
+
+Lemma mapM_notok_w {A B} (f : A -> M B) pre x post :
+  (forall y, pres (f y)) -> (forall s, wf s -> notok (f x s)) -> forall s, wf s -> notok (mapM f (pre ++ x :: post) s).
+Proof.
+  intros P H. induction pre as [|p pre IH]; intros s W; cbn [app mapM].
+  - apply bind_notok_l, H, W.
+  - apply bind_notok_rw; [apply P|assumption|]. intros a s' W'. apply bind_notok_l. now apply IH.
+Qed.
+
+Lemma foldM_notok_w {A B} (f : B -> A -> M B) pre x post :
+  (forall b y, pres (f b y)) -> (forall b s, wf s -> notok (f b x s)) ->
+  forall b s, wf s -> notok (foldM f (pre ++ x :: post) b s).
+Proof.
+  intros P H. induction pre as [|p pre IH]; intros b s W; cbn [app foldM].
+  - apply bind_notok_l, H, W.
+  - apply bind_notok_rw; [apply P|assumption|]. intros a s' W'. now apply IH.
+Qed.
+
 Section Propagation.
   Variable kinds : PositiveMap.t varkind.
   Variable G : grec.
+  Hypothesis PG : gpres G.
   Variable he : expr.
   Variable hs : stmt.
 
@@ -71,47 +106,48 @@ Section Propagation.
   Notation plug_e := (plug_e he hs).
   Notation plug_s := (plug_s he hs).
 
-  (* the filler is rejected in the given TypeCtx, in every state, with every fuel *)
-  Definition rej_e (ctx : tctx) : Prop := forall f s, notok (r_expr (afix f) he ctx s).
-  Definition rej_s (ctx : tctx) : Prop := forall f s, notok (r_stmt (afix f) hs ctx s).
+  (* the filler is rejected in the given TypeCtx, in every well-formed state, with every fuel *)
+  Definition rej_e (ctx : tctx) : Prop := forall f s, wf s -> notok (r_expr (afix f) he ctx s).
+  Definition rej_s (ctx : tctx) : Prop := forall f s, wf s -> notok (r_stmt (afix f) hs ctx s).
 
   Notation at_e := (at_e rej_e rej_s).
   Notation at_s := (at_s rej_e rej_s).
 
-  Lemma block_notok R sp pre x post ctx :
-    (forall s, notok (r_stmt R x ctx s)) ->
-    forall s, notok (expression_block G R sp (pre ++ x :: post) ctx s).
+  Lemma block_notok R sp pre x post ctx : apres R ->
+    (forall s, wf s -> notok (r_stmt R x ctx s)) ->
+    forall s, wf s -> notok (expression_block G R sp (pre ++ x :: post) ctx s).
   Proof.
-    intros H s. unfold expression_block. apply bind_notok_l.
-    apply foldM_notok. intros b s'. apply bind_notok_l, H.
+    intros PR H s W. unfold expression_block. apply bind_notok_l.
+    apply foldM_notok_w; [intros; prs| |assumption]. intros b s' W'. apply bind_notok_l, H, W'.
   Qed.
 
-  Lemma call_args_notok R ctx x post (H : forall s, notok (r_expr R x ctx s)) :
-    forall pre params r s, length (pre ++ x :: post) = length params ->
+  Lemma call_args_notok R ctx x post (PR : apres R) (H : forall s, wf s -> notok (r_expr R x ctx s)) :
+    forall pre params r s, wf s -> length (pre ++ x :: post) = length params ->
       notok (call_args G R ctx (pre ++ x :: post) params r s).
   Proof.
-    induction pre as [|p pre IH]; intros params r s Hl; destruct params as [|q params];
+    induction pre as [|p pre IH]; intros params r s W Hl; destruct params as [|q params];
       cbn [app length] in Hl; try discriminate; cbn [app call_args].
-    - apply bind_notok_l, H.
-    - apply bind_notok_r; intros [? ?] ?.
-      do 4 (apply bind_notok_r; intros ? ?).
-      apply IH. now injection Hl.
+    - apply bind_notok_l, H, W.
+    - apply bind_notok_rw; [prs|assumption|]. intros [? ?] ? W1.
+      do 4 (apply bind_notok_rw; [prs|assumption|]; intros ? ? ?).
+      apply IH; [assumption|]. now injection Hl.
   Qed.
 
-  Ltac skip := apply bind_notok_r; intros ? ?.
-  Ltac skip_pair := apply bind_notok_r; intros [? ?] ?.
+  Ltac skip := apply bind_notok_rw; [prs|assumption|]; intros ? ? ?.
+  Ltac skip_pair := apply bind_notok_rw; [prs|assumption|]; intros [? ?] ? ?.
   Ltac here := apply bind_notok_l.
 
   Lemma placement_gen : forall f,
-    (forall C ctx s, at_e C ctx -> notok (r_expr (afix f) (plug_e C) ctx s)) /\
-    (forall C ctx s, at_s C ctx -> notok (r_stmt (afix f) (plug_s C) ctx s)).
+    (forall C ctx s, wf s -> at_e C ctx -> notok (r_expr (afix f) (plug_e C) ctx s)) /\
+    (forall C ctx s, wf s -> at_s C ctx -> notok (r_stmt (afix f) (plug_s C) ctx s)).
   Proof.
-    induction f as [|f [IHe IHs]]; split; intros C ctx s Hat.
+    induction f as [|f [IHe IHs]]; split; intros C ctx s W Hat.
     - apply notok_fuel.
     - apply notok_fuel.
     - (* expressions *)
+      pose proof (afix_pres kinds G PG f) as PA.
       destruct C; cbn [Ctx.at_e] in Hat.
-      + apply Hat.
+      + now apply Hat.
       + (* XVariant *)
         cbn [Ctx.plug_e Tc.afix astep r_expr]. unfold expr_body. here. here. now apply IHe.
       + (* XCallF *)
@@ -121,8 +157,8 @@ Section Propagation.
         destruct a; auto with notok.
         destruct (negb (Nat.eqb (length (pre ++ plug_e C :: post)) (length params))) eqn:El; auto with notok.
         destruct (inside_pure ctx && negb (is_pure_p p)); auto with notok.
-        here. apply call_args_notok.
-        * intros s1. now apply IHe.
+        here. apply call_args_notok; [assumption| |assumption|].
+        * intros s1 W1. now apply IHe.
         * apply Bool.negb_false_iff, PeanoNat.Nat.eqb_eq in El. exact El.
       + (* XAccess *)
         cbn [Ctx.plug_e Tc.afix astep r_expr]. unfold expr_body. here. here. now apply IHe.
@@ -143,39 +179,42 @@ Section Propagation.
         destruct op; here; now apply IHe.
       + (* XIfC *)
         cbn [Ctx.plug_e Tc.afix astep r_expr]. unfold expr_body. here. here.
-        apply mapM_notok. intros s1. unfold if_branch. here. here. now apply IHe.
+        apply mapM_notok_w; [intros; prs| |assumption]. intros s1 W1. unfold if_branch. here. here. now apply IHe.
       + (* XIfB *)
         cbn [Ctx.plug_e Tc.afix astep r_expr]. unfold expr_body. here. here.
-        apply mapM_notok. intros s1. unfold if_branch. skip. here.
-        apply block_notok. intros s2. now apply IHs.
+        apply mapM_notok_w; [intros; prs| |assumption]. intros s1 W1. unfold if_branch.
+        apply bind_notok_rw; [prs|assumption|]; intros ? ? ?. here.
+        apply block_notok; [assumption| |assumption]. intros s2 W2. now apply IHs.
       + (* XCaseM *)
         cbn [Ctx.plug_e Tc.afix astep r_expr]. unfold expr_body. here. here. now apply IHe.
       + (* XCaseB *)
         cbn [Ctx.plug_e Tc.afix astep r_expr]. unfold expr_body. here. skip_pair. skip. skip. here.
-        apply foldM_notok. intros [[? ?] ?] s1. unfold case_branch. skip. skip. skip. here.
-        apply block_notok. intros s2. now apply IHs.
+        apply foldM_notok_w; [intros; prs| |assumption]. intros [[? ?] ?] s1 W1. unfold case_branch.
+        do 3 (apply bind_notok_rw; [prs|assumption|]; intros ? ? ?). here.
+        apply block_notok; [assumption| |assumption]. intros s2 W2. now apply IHs.
       + (* XCaseF *)
         cbn [Ctx.plug_e Tc.afix astep r_expr]. unfold expr_body. here. skip_pair. skip. skip.
-        apply bind_notok_r; intros [[? ?] ?] ?. here. here.
-        apply block_notok. intros s2. now apply IHs.
+        apply bind_notok_rw; [prs|assumption|]; intros [[? ?] ?] ? ?. here. here.
+        apply block_notok; [assumption| |assumption]. intros s2 W2. now apply IHs.
       + (* XFun *)
         cbn [Ctx.plug_e Tc.afix astep r_expr]. unfold expr_body. here. skip_pair. here.
-        apply block_notok. intros s2. now apply IHs.
+        apply block_notok; [assumption| |assumption]. intros s2 W2. now apply IHs.
       + (* XBlob *)
         cbn [Ctx.plug_e Tc.afix astep r_expr]. unfold expr_body. here. skip. skip. skip.
         destruct a1; auto with notok.
         skip.
         match goal with |- context [match ?l ++ ?r with _ => _ end] => destruct (l ++ r) end; auto with notok.
         skip. skip. here.
-        apply iterM_notok. intros s1. cbn [snd]. here. now apply IHe.
+        apply iterM_notok_w; [intros; prs| |assumption]. intros s1 W1. cbn [snd]. here. now apply IHe.
       + (* XColl *)
         cbn [Ctx.plug_e Tc.afix astep r_expr]. unfold expr_body. here.
         destruct k.
-        * skip. here. apply mapM_notok. intros s1. here. now apply IHe.
-        * skip. skip. here. apply iterM_notok. intros s1. here. now apply IHe.
+        * skip. here. apply mapM_notok_w; [intros; prs| |assumption]. intros s1 W1. here. now apply IHe.
+        * skip. skip. here. apply iterM_notok_w; [intros; prs| |assumption]. intros s1 W1. here. now apply IHe.
     - (* statements *)
+      pose proof (afix_pres kinds G PG f) as PA.
       destruct C; cbn [Ctx.at_s] in Hat.
-      + apply Hat.
+      + now apply Hat.
       + (* YAssignT *)
         cbn [Ctx.plug_s Tc.afix astep r_stmt]. unfold stmt_body. skip.
         destruct (inside_pure ctx); auto with notok.
@@ -192,57 +231,61 @@ Section Propagation.
         cbn [Ctx.plug_s Tc.afix astep r_stmt]. unfold stmt_body. here. now apply IHe.
       + (* YLoopB *)
         cbn [Ctx.plug_s Tc.afix astep r_stmt]. unfold stmt_body. skip_pair. skip. skip. here.
-        apply block_notok. intros s2. now apply IHs.
+        apply block_notok; [assumption| |assumption]. intros s2 W2. now apply IHs.
       + (* YRet *)
         cbn [Ctx.plug_s Tc.afix astep r_stmt]. unfold stmt_body. here. now apply IHe.
       + (* YBlock *)
         cbn [Ctx.plug_s Tc.afix astep r_stmt]. unfold stmt_body. here.
-        apply block_notok. intros s2. now apply IHs.
+        apply block_notok; [assumption| |assumption]. intros s2 W2. now apply IHs.
       + (* YExpr *)
         cbn [Ctx.plug_s Tc.afix astep r_stmt]. unfold stmt_body. here. now apply IHe.
   Qed.
 
-  Theorem placement_expr f C ctx s : at_e C ctx -> notok (r_expr (afix f) (plug_e C) ctx s).
+  Theorem placement_expr f C ctx s : wf s -> at_e C ctx -> notok (r_expr (afix f) (plug_e C) ctx s).
   Proof. apply (proj1 (placement_gen f)). Qed.
 
-  Theorem placement_stmt f C ctx s : at_s C ctx -> notok (r_stmt (afix f) (plug_s C) ctx s).
+  Theorem placement_stmt f C ctx s : wf s -> at_s C ctx -> notok (r_stmt (afix f) (plug_s C) ctx s).
   Proof. apply (proj2 (placement_gen f)). Qed.
 
   (* ---- whole programs *)
 
   (* a statement filler placed directly at the top level goes through `definition` exactly as an
      inner definition does; anything else panics at the top level (`Illegal outer statement`) *)
-  Definition rej_top : Prop := forall f s, notok (outer_statement kinds G (afix f) hs ctx_new s).
+  Definition rej_top : Prop := forall f s, wf s -> notok (outer_statement kinds G (afix f) hs ctx_new s).
 
   Lemma outer_def_notok f name var kind t C sp s :
-    at_e C ctx_new ->
+    wf s -> at_e C ctx_new ->
     notok (outer_statement kinds G (afix f) (SDefinition name var kind t (plug_e C) sp) ctx_new s).
   Proof.
-    intros Hat. unfold outer_statement. here. unfold definition.
+    intros W Hat. pose proof (afix_pres kinds G PG f) as PA.
+    unfold outer_statement. here. unfold definition.
     destruct (inside_pure ctx_new && negb (immutable kind)); auto with notok.
     do 5 skip. here. now apply placement_expr.
   Qed.
 
   Lemma solve_notok f P start s :
-    at_p rej_e rej_s rej_top P ->
+    wf s -> at_p rej_e rej_s rej_top P ->
     notok (solve kinds G (afix f) (plug_p he hs P) start s).
   Proof.
-    intros Hat. unfold solve. here. destruct P; cbn [plug_p at_p] in *.
-    - apply iterM_notok. intros s1. cbv beta. now apply outer_def_notok.
-    - apply iterM_notok. intros s1. cbv beta. apply Hat.
+    intros W Hat. pose proof (afix_pres kinds G PG f) as PA.
+    unfold solve. here. destruct P; cbn [plug_p at_p] in *.
+    - apply iterM_notok_w; [intros; now apply pres_outer_statement| |assumption].
+      intros s1 W1. cbv beta. now apply outer_def_notok.
+    - apply iterM_notok_w; [intros; now apply pres_outer_statement| |assumption].
+      intros s1 W1. cbv beta. now apply Hat.
   Qed.
 End Propagation.
 
 (* the verdict of typecheck *)
 Lemma typecheck_notok fuel vars stmts :
-  (forall s, notok (solve (kinds_of vars 1 (PositiveMap.empty varkind)) (gfix fuel)
+  (forall s, wf s -> notok (solve (kinds_of vars 1 (PositiveMap.empty varkind)) (gfix fuel)
                           (afix (kinds_of vars 1 (PositiveMap.empty varkind)) (gfix fuel) fuel)
                           stmts (find_start vars) s)) ->
   typecheck fuel (mkResolved vars stmts) <> Ok tt.
 Proof.
   intros H. unfold typecheck. cbn [r_vars r_stmts].
   match goal with |- match ?m ?s with _ => _ end <> _ => assert (N : notok (m s)) end.
-  { apply bind_notok_r. intros ? ?. apply H. }
+  { apply bind_notok_rw; [apply pres_init_vars|apply wf_empty|]. intros ? ? W. now apply H. }
   match goal with |- match ?o with _ => _ end <> _ => destruct o as [[? ?]| | |] end; try discriminate.
   exfalso. eapply N. reflexivity.
 Qed.
